@@ -354,12 +354,15 @@ def prepare(tier, seed):
                     c = by_id[r['id']]
                     diffs.append({'id': r['id'], 'stream': r['stream'], 'feature': bool(r['feature']), 'kind': r['kind'],
                                   'region': r['region'], 'at': r['line'], 'model': r['model'], 'impl': r['impl'], 'fe_parts': r.get('fe_parts'),
+                                  'tokens_differ': r.get('t2_also', r['kind'] == 'T2'),
                                   'text': c['text'], 'prefix': D.to_prefix(c['def']), 'verdict': r['verdict'], 'model_verdict': r['model_verdict']})
             # is a mismatch name-dependent? (it disappears on the consistently renamed, neutral twin) -> C18
             try:
                 import t3 as _t3
                 groups = {}
-                for dd in sorted(diffs, key=lambda x: len(x['text'])):
+                # (definitions whose *expansion* differs first: a front-end dump can differ on every definition
+                #  when only an internal representation changed)
+                for dd in sorted(diffs, key=lambda x: (not x['tokens_differ'], len(x['text']))):
                     if dd['verdict'] == 'ok' and dd['model_verdict'] == 'ok':
                         g = groups.setdefault((dd['kind'], dd['region'], dd['stream']), [])
                         if len(g) < 3:
@@ -398,7 +401,7 @@ def prepare(tier, seed):
         ill_suspects = []
         if prep['t12']:
             groups = {}
-            for dd in sorted(all_diffs, key=lambda x: len(x['text'])):
+            for dd in sorted(all_diffs, key=lambda x: (not x['tokens_differ'], len(x['text']))):
                 c = by_id[dd['id']]
                 if dd['verdict'] == 'ok' and dd['model_verdict'] != 'ok':
                     # refused by the rules (model), expanded by the real front end
